@@ -28,6 +28,9 @@ type SpecEnv struct {
 	old   *State
 	pkg   *types.Package
 	alloc0 string // allocation watermark "before" (for fresh())
+	bound       []string // names of the bound variables in scope
+	iter        string // map iterator of the enclosing loop (for visited())
+	iterKeySort string
 }
 
 func (e *SpecEnv) with(st *State) *SpecEnv {
@@ -94,7 +97,24 @@ func (e *SpecEnv) load(addr string, t types.Type) SVal {
 		return SVal{T: t, Sort: "Ptr", Addr: addr, S: addr}
 	}
 	s := g.L.CellSort(t)
-	return SVal{S: g.loadCell(e.st, addr, s), T: t, Sort: s, Addr: addr}
+	term := g.loadCell(e.st, addr, s)
+	// typed memory: an integer cell read through a typed path holds a value of its type.
+	// (only for ground addresses: assumptions cannot mention bound variables)
+	if s == "Int" && !g.M.BV && !isOpaque(t) {
+		ground := true
+		for _, b := range e.bound {
+			if strings.Contains(addr, b) {
+				ground = false
+			}
+		}
+		if ground {
+			if r := g.typeRange(term, t); r != "true" && !g.rangeAssumed[term] {
+				g.rangeAssumed[term] = true
+				g.assume(r)
+			}
+		}
+	}
+	return SVal{S: term, T: t, Sort: s, Addr: addr}
 }
 
 func deref(t types.Type) (types.Type, bool) {
@@ -594,6 +614,7 @@ func (e *SpecEnv) evalCall(c *ast.CallExpr) SVal {
 		k := args[0].(*ast.Ident).Name
 		q := g.fresh(k)
 		sub := e.bind(k, SVal{S: q, T: typInt, Sort: g.M.IX()})
+		sub.bound = append(append([]string{}, e.bound...), q)
 		var guard, body string
 		if len(args) == 4 {
 			lo, hi := e.toIX(e.eval(args[1])), e.toIX(e.eval(args[2]))
@@ -601,6 +622,7 @@ func (e *SpecEnv) evalCall(c *ast.CallExpr) SVal {
 			// so that the trigger is a select on a bare bound variable
 			if base := e.indexBase(args[3], k); base != "" && base != g.M.IxLit(0) {
 				sub = e.bind(k, SVal{S: g.M.ixSub(q, base), T: typInt, Sort: g.M.IX()})
+				sub.bound = append(append([]string{}, e.bound...), q)
 				guard = sAnd(g.M.ixLe(g.M.ixAdd(base, lo), q), g.M.ixLt(q, g.M.ixAdd(base, hi)))
 			} else {
 				guard = sAnd(g.M.ixLe(lo, q), g.M.ixLt(q, hi))
@@ -644,6 +666,30 @@ func (e *SpecEnv) evalCall(c *ast.CallExpr) SVal {
 	case "obj":
 		v := e.eval(args[0])
 		return SVal{S: pObj(e.ptrOf(v)), T: typInt, Sort: "Int"}
+	case "ownedby":
+		// ownedby(p, m): the heap object p was last inserted into map m
+		p0 := e.eval(args[0])
+		m := e.eval(args[1])
+		return SVal{S: sEq(g.loadCell(e.st, g.mkptr(pObj(p0.S), g.M.IxLit(0)), "GOwn"), pObj(m.S)), T: bt, Sort: "Bool"}
+	case "keyof":
+		// keyof(p): the key under which the heap object p was last inserted into a map
+		p0 := e.eval(args[0])
+		return SVal{S: g.loadCell(e.st, g.mkptr(pObj(p0.S), g.M.IxLit(1)), "GOwn"), T: typInt, Sort: "Int"}
+	case "typed":
+		// typed(p): p points to the start of a heap object of its (heap-only) static element type
+		v := e.eval(args[0])
+		et, ok := deref(v.T)
+		if !ok || !g.isHeapType(et) {
+			specFail("typed(): argument is not a pointer to a declared heaptype")
+		}
+		return SVal{S: sAnd(sEq(app("objtype", pObj(v.S)), fmt.Sprint(g.typeID(et))), sEq(pOff(v.S), g.M.IxLit(0)), app("<=", pObj(v.S), e.st.Alloc)), T: bt, Sort: "Bool"}
+	case "visited":
+		// visited(k): key k has already been produced by the map iteration of the enclosing loop
+		if e.iter == "" {
+			specFail("visited() is only available in invariants of a loop ranging over a map")
+		}
+		k := e.eval(args[0])
+		return SVal{S: app("select", app("select", g.mapVis(e.st, e.iterKeySort), pObj(e.iter)), k.S), T: bt, Sort: "Bool"}
 	case "iserr":
 		// iserr(e, *T) / iserr(e, sentinelVar): errors.As / errors.Is class membership
 		v := e.eval(args[0])
@@ -833,7 +879,26 @@ func (e *SpecEnv) EvalRegion(x ast.Expr) (r Region, err error) {
 	case *ast.CallExpr:
 		if id, ok := x.Fun.(*ast.Ident); ok && id.Name == "obj" {
 			v := e.eval(x.Args[0])
+			if v.T != nil {
+				if _, isMap := v.T.Underlying().(*types.Map); isMap {
+					return Region{Obj: pObj(v.S), Whole: true, Map: true, Sorts: []string{}, Src: src}, nil
+				}
+			}
 			return Region{Obj: pObj(e.ptrOf(v)), Whole: true, Src: src}, nil
+		}
+		if id, ok := x.Fun.(*ast.Ident); ok && id.Name == "ghost" {
+			// all ghost state attached to the object behind an interface or pointer value
+			v := e.eval(x.Args[0])
+			return Region{Obj: pObj(e.ptrOf(v)), Whole: true, Sorts: []string{"GInt"}, Src: src}, nil
+		}
+		if id, ok := x.Fun.(*ast.Ident); ok && id.Name == "owned" {
+			// owned(m, T): all objects of heap-only type T whose ghost owner is the map m
+			m := e.eval(x.Args[0])
+			t := e.resolveType(x.Args[1])
+			if !g.isHeapType(t) {
+				specFail("owned(_, %v): not declared as heaptype", t)
+			}
+			return Region{TypeID: fmt.Sprint(g.typeID(t)), Owner: pObj(m.S), T: t, Obj: "0", Src: src}, nil
 		}
 		if id, ok := x.Fun.(*ast.Ident); ok && id.Name == "alltyped" {
 			t := e.resolveType(x.Args[0])
